@@ -19,7 +19,22 @@ extern "C"
 
 namespace gs
 {
-    static inline gstuff_context ctx_of(Codec k) { return k == V0 ? gstuff_context_v0() : gstuff_context(); }
+    static inline gstuff_context ctx_of(Codec k)
+    {
+        if (k == CUSTOM)
+        {
+            const Alpha &a = ALPHA[CUSTOM];
+            gstuff_context c;
+            c.GSTUFF_START = (char)a.START;
+            c.GSTUFF_STOP = (char)a.STOP;
+            c.GSTUFF_STUB = (char)a.STUB;
+            c.GSTUFF_STUB_START = (char)a.C_START;
+            c.GSTUFF_STUB_STOP = (char)a.C_STOP;
+            c.GSTUFF_STUB_STUB = (char)a.C_STUB;
+            return c;
+        }
+        return k == V0 ? gstuff_context_v0() : gstuff_context();
+    }
 
     // layout twin of gstuff_autorecv, only used to *read* the private automaton state for coverage reporting
     struct RecvTwin
